@@ -78,6 +78,7 @@ InitTimer(t) == [
     \* ---- ghosts ----
     astart |-> INF,                          \* start time of the configuration now in dt_timer
     pstale |-> FALSE,                        \* the pending data was produced by a configuration that has since been replaced
+    psusp |-> FALSE,                         \* the pending data was produced by a fire that found the source suspended
     rep |-> 0,                               \* cumulative count reported by the handler since the configuration was applied
     fired |-> FALSE,                         \* (dispatch_after) the block has been invoked
     nfire |-> 0 ]                            \* handler invocations (capped at MaxFire; liveness only)
@@ -115,14 +116,29 @@ UnoteResume(r) ==
         r1 == IF r.armed /\ (~will_arm \/ r.clk # r.fclk) THEN [r EXCEPT !.armed = FALSE] ELSE r     \* disarm
     IN IF will_arm THEN [r1 EXCEPT !.armed = TRUE, !.clk = r.fclk] ELSE r1                            \* arm / update
 
-\* _dispatch_timer_unote_configure(dt)
+\* _dispatch_timer_unote_configure(dt):
+\*     dtc = xchg(dt_pending_config, NULL); flags/dt_timer = dtc's; free(dtc);
+\*     os_atomic_store2o(dt, ds_pending_data, 0)     -- UNCONDITIONAL: "clear any pending data that might have
+\*                                                      accumulated on older timer params"
+\*     if (_dispatch_unote_armed(dt)) _dispatch_timer_unote_resume(dt);
+\* The store matters most when the timer is NOT armed: _dispatch_timers_run takes a timer out of the heap
+\* exactly when it has an undelivered fire (source suspended at fire time: MRun's ~NeedsRearmUnote branch;
+\* handler not keeping up: MRunDisarm; one-shot), and it then carries count << 1 | DISARMED_MARKER.
+\* Mutants: "honour_old" never clears; "configure_keeps_pending_when_disarmed" clears only when the timer is
+\* still armed; "configure_keeps_pending_suspended_fire" the same, restricted to pending data that was produced
+\* while the source was suspended (ghost psusp: shows that the bounds reach fire-while-suspended, set_timer, resume).
+KeepsPending(r) == \/ Mut = "honour_old"
+                   \/ Mut = "configure_keeps_pending_when_disarmed" /\ ~r.armed
+                   \/ Mut = "configure_keeps_pending_suspended_fire" /\ ~r.armed /\ r.psusp
 Configure(r) ==
     LET cfg == r.pend
+        keep == KeepsPending(r)
         r1 == [r EXCEPT !.pend = NoCfg, !.fclk = cfg.clk, !.tgt = cfg.target, !.iv = cfg.iv,
                         !.astart = cfg.target, !.rep = 0,
-                        !.pcnt = IF Mut = "honour_old" THEN @ ELSE 0,          \* "clear any pending data"
-                        !.pmark = IF Mut = "honour_old" THEN @ ELSE FALSE,
-                        !.pstale = IF Mut = "honour_old" THEN @ ELSE FALSE]
+                        !.pcnt = IF keep THEN @ ELSE 0,          \* "clear any pending data"
+                        !.pmark = IF keep THEN @ ELSE FALSE,
+                        !.pstale = IF keep THEN @ ELSE FALSE,
+                        !.psusp = IF keep THEN @ ELSE FALSE]
     IN IF r.armed THEN UnoteResume(r1) ELSE r1
 
 \* _dispatch_timer_unote_compute_missed: ComputeMissed(r, now, prev) of TimerLaws
@@ -239,7 +255,8 @@ MRun ==
                             r1 == cm[1]
                             r2 == IF NeedsRearmUnote(r1)
                                     THEN [r1 EXCEPT !.pcnt = cm[2], !.pmark = FALSE]                       \* stays armed (heap update)
-                                    ELSE [r1 EXCEPT !.armed = FALSE, !.pcnt = cm[2], !.pmark = TRUE]     \* disarmed + marker
+                                    ELSE [r1 EXCEPT !.armed = FALSE, !.pcnt = cm[2], !.pmark = TRUE,     \* disarmed + marker
+                                                    !.psusp = r1.susp]                                    \* (suspended, or a one-shot)
                             m1 == [tm EXCEPT ![t] = r2]
                         IN tm' = m1 /\ HeapTouched(m1) /\ UNCHANGED <<mpc, mi, mdis>>
     /\ UNCHANGED <<now, darm, kt, ken, kreg, calls, viol>>
@@ -310,7 +327,7 @@ TLatch(t) ==
            viaMarker == r.pmark /\ r.tgt < INF /\ n >= r.tgt
            cm == IF viaMarker THEN ComputeMissed(r, n, r.pcnt) ELSE <<r, r.pcnt>>
            data == cm[2]
-           r1 == [cm[1] EXCEPT !.pcnt = 0, !.pmark = FALSE, !.pstale = FALSE, !.prevmark = r.pmark, !.tpc = "post"]
+           r1 == [cm[1] EXCEPT !.pcnt = 0, !.pmark = FALSE, !.pstale = FALSE, !.psusp = FALSE, !.prevmark = r.pmark, !.tpc = "post"]
            newrep == r.rep + data
            law == IF n < r.astart THEN "NeverEarly"                               \* before the start time, on its own clock
                   ELSE IF newrep > Boundaries(r.astart, r.iv, n) THEN "CountBound" \* more fires reported than boundaries passed
